@@ -92,6 +92,10 @@ func namedSpecs() []spec.Spec {
 			attrsOn([]string{"name"}, "", "iframe"),
 			C{Op: "AllowNoAttrs", Scope: "on", On: []string{"iframe"}},
 		}},
+		{Name: "rawtext-comments", Base: "new", Calls: []C{
+			els("textarea", "title", "xmp", "noscript", "b"),
+			C{Op: "AllowNoAttrs", Scope: "on", On: []string{"noscript", "xmp"}}, {Op: "AllowComments"},
+		}},
 		{Name: "foreign", Base: "new", Calls: []C{
 			els("svg", "math", "desc", "title", "foreignobject", "mi", "mtext", "annotation-xml", "g", "b", "p", "table", "tr", "td", "select", "option"),
 			attrsGlob([]string{"id"}, ""),
